@@ -28,6 +28,7 @@ RULE_TEXT = (
     "rendered in the Snowflake dialect; C15.h SET/UNSET stage after the folding stage; C15.i every state the "
     "substitution reads is updated by both SET and UNSET."
     " C15.e also: a string-literal branch of the reference pattern must know backslash escapes."
+    " C15.j = C16.a (execute_string does not substitute the whole script up front)."
 )
 TRUSTED = ["CPython ast and re._parser", "re.sub interprets backslash escapes in a string replacement"]
 
